@@ -914,6 +914,13 @@ func (vc *VC) evalCall(e *SExpr, env *Env) *Val {
 				return &Val{T: "(to_int " + x.T + ")", Ty: MathInt}
 			}
 			return &Val{T: x.T, Ty: MathInt}
+		case "trunc":
+			// trunc(r): r truncated toward zero, as Go's float-to-integer conversion does
+			x := vc.eval(args[0], env)
+			if vc.sortOf(x.Ty) != "Real" {
+				return &Val{T: x.T, Ty: MathInt}
+			}
+			return &Val{T: fmt.Sprintf("(ite (>= %s 0.0) (to_int %s) (- (to_int (- %s))))", x.T, x.T, x.T), Ty: MathInt}
 		case "real":
 			x := vc.eval(args[0], env)
 			if vc.sortOf(x.Ty) == "Real" {
